@@ -212,7 +212,7 @@ func (p *sparser) expr(minPrec int) *SExpr {
 
 func (p *sparser) unary() *SExpr {
 	t := p.peek()
-	if t.kind == "op" && (t.text == "!" || t.text == "-") {
+	if t.kind == "op" && (t.text == "!" || t.text == "-" || t.text == "*") {
 		p.next()
 		return &SExpr{Op: "unary", Name: t.text, Args: []*SExpr{p.unary()}}
 	}
